@@ -2,6 +2,8 @@
 // the real code against (a) the frozen specification spec/registers.json
 // (independent oracle) and (b) the model regenerated from the source by
 // tools/go2coq (differential test of the translator, evaluated inside Coq).
+// readtxt.go: ReadTXTRegisters and the single-register readers on images of every length
+// (per-register oracle: every register whose extent lies inside the image is yielded).
 // sessions.go: sequences on one process — Fields() calls of all register types
 // interleaved with writes into the byte slices that were handed out — against
 // the slice-level model coq/Model/RegisterHeap.v (results are fresh values).
@@ -278,43 +280,32 @@ func main() {
 		}
 	}
 
-	// ---- TXT configuration space readers ----
-	nimg := c.Scale(30, 200)
+	// ---- TXT configuration space readers (readtxt.go: lengths, contents, per-register oracle) ----
+	plan := imagePlan(c)
+	nimg := len(plan)
 	var prevRegs registers.Registers
 	var prevImg []byte
 	readOne := func(i int) {
-		// lengths: the minimal image holding every register (0x420: the public key ends there),
-		// one byte more, random lengths in between, and the usual 4 KiB
-		ilen := 0x1000
-		switch i % 5 {
-		case 0:
-			ilen = 0x420
-		case 1:
-			ilen = 0x421
-		case 2:
-			ilen = 0x420 + c.Rng.Intn(0x1000-0x420)
-		}
-		img := make([]byte, ilen)
-		switch i % 3 {
-		case 0:
-			c.Rng.Read(img)
-		case 1: // sparse
-			for k := 0; k < 40; k++ {
-				img[c.Rng.Intn(len(img))] = byte(c.Rng.Intn(256))
-			}
-		default: // only register bytes set
-			for _, off := range []int{0, 8, 0x30, 0xa0, 0x100, 0x110, 0x200, 0x270, 0x278, 0x290, 0x300, 0x308, 0x328, 0x330, 0x378, 0x400, 0x408, 0x410, 0x418} {
-				c.Rng.Read(img[off : off+8])
-			}
-		}
+		sp := plan[i]
+		img := fillImage(c, sp)
+		ilen := len(img)
+		ov := sparse(img)
+		input := map[string]interface{}{"image_length": ilen, "image_length_hex": fmt.Sprintf("%#x", ilen), "image_nonzero_bytes": ov, "why_this_length": sp.why}
 		var regs registers.Registers
 		var rerr error
 		if p, msg := gal.Recover(func() { regs, rerr = registers.ReadTXTRegisters(img) }); p {
-			c.OracleFail(-1, fmt.Sprintf("ReadTXTRegisters panics on a %#x-byte image (all registers lie below 0x420): %s", ilen, msg), "registers.ReadTXTRegisters", map[string]interface{}{"image_length": ilen})
-			return
-		}
-		if rerr != nil {
-			c.OracleFail(-1, fmt.Sprintf("ReadTXTRegisters fails on a %#x-byte image although every register lies below 0x420: %s", ilen, rerr.Error()), "registers.ReadTXTRegisters", map[string]interface{}{"image_length": ilen})
+			var fitting []string
+			for _, d := range txtRegs {
+				if d.off+d.n <= ilen {
+					fitting = append(fitting, d.id)
+				}
+			}
+			if len(fitting) > 0 {
+				c.OracleFail(-1, fmt.Sprintf("ReadTXTRegisters panics on a %#x-byte image, so none of the registers that lie inside it (%s) is read: %s", ilen, strings.Join(fitting, " "), msg), "registers.ReadTXTRegisters", input)
+			} else {
+				// no register to yield: not a statement of the property; the model says "no panic"
+				c.Add("read_txt", fmt.Sprintf("CRead %d %s [] [(\"<panic>\", 2)]", ilen, gal.List(ov)), map[string]interface{}{"image": sp.why, "length": ilen, "panic": msg}, false)
+			}
 			return
 		}
 		// The result has to be a value of its own: the same image is read a second time, a consumer
@@ -333,28 +324,33 @@ func main() {
 		img = orig
 		if prevRegs != nil {
 			if _, pbad := checkRegs(prevRegs, prevImg); pbad != "" {
-				c.OracleFail(-1, "a collection returned by an earlier ReadTXTRegisters call changed after later calls: "+pbad, "registers.ReadTXTRegisters", map[string]interface{}{"sequence": "ReadTXTRegisters(image A); ReadTXTRegisters(image A) again and clear that result; overwrite the buffer of A; ReadTXTRegisters(image B); inspect the first result", "image_A_nonzero_bytes": sparse(prevImg)})
+				c.OracleFail(-1, "a collection returned by an earlier ReadTXTRegisters call changed after later calls: "+pbad, "registers.ReadTXTRegisters", map[string]interface{}{"sequence": "ReadTXTRegisters(image A); ReadTXTRegisters(image A) again and clear that result; overwrite the buffer of A; ReadTXTRegisters(image B); inspect the first result", "image_A_length": len(prevImg), "image_A_nonzero_bytes": sparse(prevImg)})
 				prevRegs = nil
 			} else {
 				c.OracleOK()
 			}
 		}
+		// what came back, for the model: the collection in the order returned, the error entries
 		obs, bad := checkRegs(regs, img)
 		prevRegs, prevImg = regs, img
-		// sparse literal of the image
-		var ov []string
-		for k, b := range img {
-			if b != 0 {
-				ov = append(ov, fmt.Sprintf("(%d, %d)", k, b))
-			}
+		if bad != "" {
+			prevRegs = nil
 		}
-		idx := c.Add("read_txt", fmt.Sprintf("CRead %d %s %s", len(img), gal.List(ov), gal.List(obs)), map[string]interface{}{"image": "random 4KiB, class " + fmt.Sprint(i%3), "seed_index": i}, true)
+		idx := c.Add("read_txt", fmt.Sprintf("CRead %d %s %s %s", ilen, gal.List(ov), gal.List(obs), gal.List(errObs(rerr))),
+			map[string]interface{}{"image": sp.why, "length": ilen, "fill_class": sp.class, "seed_index": i}, len(ov) > 0)
+		if ilen < txtAreaEnd() {
+			c.Count("read_txt_short_image")
+		}
+		// the property, register by register (every register whose extent lies inside the image)
+		if jb := judgeRead(img, regs, rerr); jb != "" {
+			bad = jb
+		}
 		// decoders agree
 		if bad == "" {
 			bad = decodersDisagree(img, regs)
 		}
 		if bad != "" {
-			c.OracleFail(idx, bad, "registers.ReadTXTRegisters / tools.ParseTXTRegs", map[string]interface{}{"image_nonzero_bytes": ov})
+			c.OracleFail(idx, bad, "registers.ReadTXTRegisters / tools.ParseTXTRegs", input)
 		} else {
 			c.OracleOK()
 		}
@@ -503,7 +499,7 @@ func main() {
 
 	flushSessionFailures(c)
 
-	c.Finish("every accessor of spec/registers.json on 0, all-ones, alternating, every single-bit and every all-ones-minus-one-bit pattern plus random and two-bit values; Fields() of every integer register type on the same patterns; ReadTXTRegisters/ParseTXTRegs on random, sparse and register-only 4 KiB images (result inspected after a second read of the same image was emptied, the image buffer overwritten and the next image read); sessions of 3-8 Fields() calls (all register types and TXT.PUBLIC.KEY, raw values from a small per-session palette so that registers, raw values and field values recur) interleaved with writes (invert, reverse, random, 0xFF, +1) over the whole capacity of the byte slices handed out and reuse of the []Field; non-trivial = raw value <> 0; distinct = distinct Gallina literal")
+	c.Finish("every accessor of spec/registers.json on 0, all-ones, alternating, every single-bit and every all-ones-minus-one-bit pattern plus random and two-bit values; Fields() of every integer register type on the same patterns; ReadTXTRegisters, the 16 single-register readers and ParseTXTRegs on random, sparse and register-only images of the whole register area up to 4 KiB AND of every length at which the set of readable registers changes (for each of the 16 registers: image ends at, one byte before, one byte after its offset and its end; lengths 0 and 1; random lengths below 0x420) with the per-register oracle 'every register whose extent lies inside the image is returned once with the little-endian value at its offset' (result inspected after a second read of the same image was emptied, the image buffer overwritten and the next image read); sessions of 3-8 Fields() calls (all register types and TXT.PUBLIC.KEY, raw values from a small per-session palette so that registers, raw values and field values recur) interleaved with writes (invert, reverse, random, 0xFF, +1) over the whole capacity of the byte slices handed out and reuse of the []Field; non-trivial = raw value <> 0; distinct = distinct Gallina literal")
 }
 
 func describe(a accSpec) string {
